@@ -53,13 +53,15 @@ func (r *ascii85Reader) Read(p []byte) (n int, err error) {
 	if len(p) == 0 {
 		return 0, nil
 	}
-	if r.immediateError != nil {
-		return 0, r.immediateError
-	}
-
 	if len(r.leftover) > 0 {
 		n = copy(p, r.leftover)
 		r.leftover = r.leftover[n:]
+	}
+	if r.immediateError != nil {
+		if len(r.leftover) > 0 {
+			return n, nil
+		}
+		return n, r.immediateError
 	}
 
 	for n < len(p) {
@@ -87,6 +89,10 @@ func (r *ascii85Reader) Read(p []byte) (n int, err error) {
 					r.immediateError = io.EOF
 				} else {
 					r.immediateError = errors.New("invalid end marker in ASCII85 stream")
+				}
+				if len(r.leftover) > 0 {
+					// bytes of the final group are still to be delivered
+					return n, nil
 				}
 				return n, r.immediateError
 			}
